@@ -77,6 +77,11 @@ CONTROL_RERUNS = 8      # scenarios whose control was starved are run again alon
 
 RUNNER = r'''
 import asyncio, gc, json, os, signal, sys, time, threading, fcntl, termios, struct
+try:        # report the library lines this process (and the children it forks) executes to the check that started it (core.LineCoverage)
+    import core as _core
+    _lc = _core.linecov_child()
+except Exception:
+    _lc = None
 from pedantic.decorators.fn_deco_in_subprocess import in_subprocess, calculate_in_subprocess
 try:
     from multiprocess.connection import Connection
